@@ -479,7 +479,8 @@ func main() {
 		"directions; page walks of the three listings with page sizes 1..n+1 in both directions; random tables up to MAX_BOARD; " +
 		"a stream of the cases the theorems exclude (keyword ending in Z/@/0xff descending, keyword longer than a board name, empty keyword, " +
 		"names equal up to case, 5-byte classes), judged under dedicated keys; a malformed stream (unparsable lines, page sizes <= 0, NUL bytes in keywords). " +
-		"distinct_nontrivial = distinct op lines that call one of the real lookup/listing functions"
+		"distinct_nontrivial = distinct op LINES that call one of the real lookup/listing functions on an in-domain table (conservative: the same query on two tables counts once; " +
+		"the number of distinct (table, op line) pairs is reported as distinct_table_op_pairs); out-of-domain tables, unjudged and malformed lines are not counted"
 
 	if nameLen != ptttype.IDLEN+1 {
 		fmt.Fprintln(os.Stderr, "BoardID_t is no longer [IDLEN+1]byte: the model's `kw.length + 1 > nameLen` needs revisiting")
